@@ -75,3 +75,125 @@ pub fn probe_iter(id: u32, a: i64, b: i64) -> Vec<i64> {
         _ => vec![-7],
     }
 }
+
+// ---------------------------------------------------------------------------------------------- second group: Option / Result, maps and sets, formatting, characters, strings
+use std::collections::{BTreeMap, BTreeSet, HashMap, HashSet};
+use indexmap::IndexMap;
+
+fn opt(a: i64) -> Option<i64> { if a < 0 { None } else { Some(a) } }
+fn res(a: i64) -> Result<i64, i64> { if a < 0 { Err(-a) } else { Ok(a) } }
+fn ov(x: Option<i64>) -> Vec<i64> { match x { None => vec![-1], Some(v) => vec![1, v] } }
+
+pub fn probe_opt(id: u32, a: i64, b: i64) -> Vec<i64> {
+    match id {
+        0 => ov(opt(a).map(|v| v + b)),
+        1 => vec![opt(a).map_or(7, |v| v * 2)],
+        2 => ov(opt(a).and_then(|v| opt(v - b))),
+        3 => ov(opt(a).or_else(|| opt(b))),
+        4 => vec![opt(a).unwrap_or(b), opt(a).unwrap_or_else(|| b + 1), opt(a).unwrap_or_default()],
+        5 => vec![opt(a).is_some_and(|v| v > b) as i64, opt(a).is_some() as i64, opt(a).is_none() as i64],
+        6 => ov(opt(a).filter(|v| *v != b)),
+        7 => match opt(a).ok_or(b) { Ok(v) => vec![1, v], Err(e) => vec![0, e] },
+        8 => { let mut o = opt(a); let t = o.take(); let mut v = ov(t); v.extend(ov(o)); v }
+        9 => { let mut o = opt(a); let t = o.replace(b); let mut v = ov(t); v.extend(ov(o)); v }
+        10 => match res(a).map(|v| v + 1).map_err(|e| e * 10) { Ok(v) => vec![1, v], Err(e) => vec![0, e] },
+        11 => ov(res(a).ok()),
+        12 => match res(a).and_then(|v| res(v - b)) { Ok(v) => vec![1, v], Err(e) => vec![0, e] },
+        13 => vec![res(a).unwrap_or(b), res(a).is_ok() as i64, res(a).is_err() as i64],
+        14 => ov(opt(a).zip(opt(b)).map(|(x, y)| x * 100 + y)),
+        15 => ov(opt(a).xor(opt(b))),
+        16 => ov(opt(a).or(opt(b))),
+        17 => ov(opt(a).and(opt(b))),
+        18 => { let v = vec![opt(a), opt(b), Some(3)]; ov(v.into_iter().flatten().max()) }
+        19 => { let r: Option<Vec<i64>> = vec![opt(a), opt(b)].into_iter().collect(); match r { None => vec![-1], Some(v) => v } }
+        20 => vec![(opt(a) == opt(b)) as i64, (opt(a) < opt(b)) as i64, (Some(a) == opt(a)) as i64],
+        _ => vec![-7],
+    }
+}
+
+pub fn probe_map(id: u32, a: i64, b: i64) -> Vec<i64> {
+    let keys = [3i64, 1, 2, a, b];
+    match id {
+        0 => { let mut m = BTreeMap::new(); for (i, k) in keys.iter().enumerate() { m.insert(*k, i as i64); } m.iter().flat_map(|(k, v)| vec![*k, *v]).collect() }
+        1 => { let mut m = IndexMap::new(); for (i, k) in keys.iter().enumerate() { m.insert(*k, i as i64); } m.iter().flat_map(|(k, v)| vec![*k, *v]).collect() }
+        2 => { let mut m = IndexMap::new(); let mut out = vec![]; for (i, k) in keys.iter().enumerate() { out.extend(ov(m.insert(*k, i as i64))); } out }
+        3 => { let mut m = HashMap::new(); for (i, k) in keys.iter().enumerate() { m.insert(*k, i as i64); } let mut v = vec![m.len() as i64, m.contains_key(&a) as i64]; v.extend(ov(m.get(&b).copied())); v.extend(ov(m.remove(&1))); v.push(m.len() as i64); v }
+        4 => { let mut m: IndexMap<i64, i64> = IndexMap::new(); for k in keys.iter() { *m.entry(*k).or_insert(0) += 1; } m.iter().flat_map(|(k, v)| vec![*k, *v]).collect() }
+        5 => { let mut m: IndexMap<i64, Vec<i64>> = IndexMap::new(); for (i, k) in keys.iter().enumerate() { m.entry(*k).or_default().push(i as i64); } m.iter().flat_map(|(k, v)| { let mut x = vec![*k]; x.extend(v); x.push(-9); x }).collect() }
+        6 => { let mut m: IndexMap<i64, i64> = IndexMap::new(); for (i, k) in keys.iter().enumerate() { m.insert(*k, i as i64); } let mut v = ov(m.get_index_of(&a).map(|x| x as i64)); v.extend(ov(m.get_index(1).map(|(k, _)| *k))); v.extend(m.keys().copied()); v.push(-9); v.extend(m.values().copied()); v }
+        7 => { let mut s = BTreeSet::new(); let mut out = vec![]; for k in keys.iter() { out.push(s.insert(*k) as i64); } out.push(-9); out.extend(s.iter().copied()); out }
+        8 => { let mut s = HashSet::new(); let mut out = vec![]; for k in keys.iter() { out.push(s.insert(*k) as i64); } out.push(s.len() as i64); out.push(s.contains(&a) as i64); out.push(s.remove(&b) as i64); out.push(s.len() as i64); out }
+        9 => { let mut m: IndexMap<i64, i64> = IndexMap::new(); for (i, k) in keys.iter().enumerate() { m.insert(*k, i as i64); } m.retain(|k, _| *k != a); let mut v: Vec<i64> = m.keys().copied().collect(); v.push(-9); let mut n: IndexMap<i64, i64> = IndexMap::new(); n.insert(9, 9); n.extend(m); v.extend(n.keys().copied()); v }
+        10 => { let mut m: BTreeMap<i64, i64> = BTreeMap::new(); for (i, k) in keys.iter().enumerate() { m.entry(*k).and_modify(|v| *v += 10).or_insert(i as i64); } m.into_iter().flat_map(|(k, v)| vec![k, v]).collect() }
+        11 => { let m: IndexMap<i64, i64> = keys.iter().enumerate().map(|(i, k)| (*k, i as i64)).collect(); let mut v: Vec<(i64, i64)> = m.into_iter().collect(); v.sort_by(|x, y| y.1.cmp(&x.1)); v.into_iter().flat_map(|(k, x)| vec![k, x]).collect() }
+        12 => { let mut v = keys.to_vec(); v.sort_by_key(|k| (k % 2, -*k)); v }
+        13 => { let m: HashMap<i64, i64> = keys.iter().map(|k| (*k, k * 2)).collect(); vec![m[&3], m.get(&99).copied().unwrap_or(-1), m.values().sum::<i64>()] }
+        _ => vec![-7],
+    }
+}
+
+pub fn probe_fmt(id: u32, a: i64, b: i64) -> Vec<i64> {
+    let t = TEXTS[((b as usize) % 5)];
+    let s = match id {
+        0 => format!("{}-{}", a, t),
+        1 => format!("{:?}", t),
+        2 => format!("\\x{:02x}", a as u8),
+        3 => format!("\\u{:04x}", a as u32),
+        4 => format!("{:x}", a as u32),
+        5 => format!("{}{}", a > b, 'c'),
+        6 => format!("{}", (a as i32).to_string() + &b.to_string()),
+        7 => format!("{:?}", Some(a)),
+        8 => format!("{:?}", vec![a, b]),
+        9 => format!("{:?}", (a, t)),
+        10 => format!("a{{{}}}b", a),
+        11 => { let mut s = String::new(); use std::fmt::Write; write!(s, "{}:{}", a, b).unwrap(); s }
+        12 => format!("{:?}", "q\"\n\\é\u{1}"),
+        13 => [a.to_string(), t.to_string(), b.to_string()].join("::"),
+        14 => format!("{a}/{b}"),
+        15 => format!("{:>4}|{:<3}|{:03}", a, b, a),
+        _ => "?".to_string(),
+    };
+    bytes_of(&s)
+}
+
+pub fn probe_char(id: u32, a: i64, _b: i64) -> Vec<i64> {
+    let c = match char::from_u32(a as u32) { Some(c) => c, None => return vec![-1] };
+    match id {
+        0 => vec![c.is_alphanumeric() as i64, c.is_alphabetic() as i64, c.is_numeric() as i64, c.is_whitespace() as i64, c.is_control() as i64],
+        1 => vec![c.is_ascii_digit() as i64, c.is_ascii_alphabetic() as i64, c.is_ascii_alphanumeric() as i64, c.is_ascii_hexdigit() as i64, c.is_ascii() as i64, c.is_ascii_uppercase() as i64, c.is_ascii_lowercase() as i64, c.is_ascii_punctuation() as i64, c.is_ascii_whitespace() as i64],
+        2 => vec![c.to_digit(10).map(|d| d as i64).unwrap_or(-1), c.to_digit(16).map(|d| d as i64).unwrap_or(-1)],
+        3 => vec![c.to_ascii_lowercase() as i64, c.to_ascii_uppercase() as i64, c.len_utf8() as i64],
+        4 => { let mut buf = [0u8; 4]; c.encode_utf8(&mut buf).as_bytes().iter().map(|x| *x as i64).collect() }
+        5 => { let mut s = String::new(); s.push(c); s.push('x'); let p = s.pop(); let mut v = bytes_of(&s); v.push(p.map(|x| x as i64).unwrap_or(-1)); v }
+        6 => vec![c.is_uppercase() as i64, c.is_lowercase() as i64, (c == '_') as i64, (c >= 'a' && c <= 'z') as i64, matches!(c, '0'..='9' | 'a'..='f') as i64],
+        7 => std::char::from_digit((a as u32) % 40, 16).map(|d| vec![d as i64]).unwrap_or(vec![-1]),
+        _ => vec![-7],
+    }
+}
+
+pub fn probe_str2(id: u32, a: i64, b: i64) -> Vec<i64> {
+    let t = TEXTS[((a as usize) % 5)]; let u = TEXTS[((b as usize) % 5)];
+    let nums = ["0", "7", "-3", "255", "256", "+5", "", "12a", "99999999999", "2147483648", "-129", "00012"];
+    let n = nums[((a as usize) % 12)];
+    match id {
+        0 => { let mut s = String::from(t); s.push_str(u); s.push(':'); bytes_of(&s) }
+        1 => bytes_of(&(t.to_string() + u)),
+        2 => vec![(t == u) as i64, (t < u) as i64, t.cmp(u) as i64, t.eq_ignore_ascii_case(u) as i64],
+        3 => bytes_of(&t.to_uppercase()).into_iter().chain(bytes_of(&t.to_lowercase())).collect(),
+        4 => match n.parse::<i32>() { Ok(v) => vec![1, v as i64], Err(_) => vec![0] },
+        5 => match n.parse::<u8>() { Ok(v) => vec![1, v as i64], Err(_) => vec![0] },
+        6 => match n.parse::<i64>() { Ok(v) => vec![1, v], Err(_) => vec![0] },
+        7 => match n.parse::<i8>() { Ok(v) => vec![1, v as i64], Err(_) => vec![0] },
+        8 => bytes_of(&t.chars().filter(|c| *c != ':').collect::<String>()),
+        9 => bytes_of(&t.replace("::", "/")).into_iter().chain(bytes_of(&t.replace(':', ""))).collect(),
+        10 => { let mut v = vec![t, u, "b", "a"]; v.sort(); v.dedup(); v.into_iter().flat_map(|s| { let mut x = bytes_of(s); x.push(-9); x }).collect() }
+        11 => bytes_of(t.trim()).into_iter().chain(bytes_of(&t.repeat(((b as usize) % 3)))).collect(),
+        12 => t.bytes().rev().map(|x| x as i64).collect(),
+        13 => { let parts: Vec<&str> = t.rsplit("::").collect(); parts.iter().flat_map(|s| { let mut x = bytes_of(s); x.push(-9); x }).collect() }
+        14 => { let parts: Vec<&str> = t.splitn(2, ':').collect(); parts.iter().flat_map(|s| { let mut x = bytes_of(s); x.push(-9); x }).collect() }
+        15 => opt_str(t.strip_suffix("c")).into_iter().chain(opt_str(t.rsplit_once(':').map(|x| x.1))).collect(),
+        16 => vec![t.chars().next().map(|c| c as i64).unwrap_or(-1), t.chars().last().map(|c| c as i64).unwrap_or(-1), t.chars().nth(1).map(|c| c as i64).unwrap_or(-1)],
+        17 => { let mut s = t.to_string(); s.truncate(((b as usize) % 4)); bytes_of(&s) }
+        _ => vec![-7],
+    }
+}
